@@ -231,3 +231,283 @@ theorem C03_force_minimal (s : St) (u t : Node) (force : Bool) (recs : List Prim
 example : (∃ recs, (S0.uAddEdge (6, 4) true).2 = .ok recs) ∧
     (S0.uAddEdge (6, 4) true).1.edgeList = [(1, 2), (2, 3), (5, 6), (6, 4)] := ⟨⟨_, rfl⟩, by decide⟩
 #print axioms C03_force_minimal
+
+/-! ### node-level actions: `Forest` alone is not enough
+
+`UserAddNode` and `UserDeleteNode` pick the edges they create from the answer of
+`get_track_neighbors`, i.e. from the lookup `t2n` and the stored track ids.  On a forest whose
+lookup or track ids are inconsistent the accepted action can create a merge (states below), so
+the weakest hypotheses from `SessionSpec` are `BookOK` (lookup = nodes carrying the id) and
+`TidOK` (only rule T1 `along` is used for add-node).  These are not defects of the code: every
+state reached from a valid solution satisfies both (C04/C06). -/
+
+namespace C03Ex
+/-- forest, `TidOK`, but the lookup lists node 2 under track 5 (not `BookOK`) -/
+def B1 : St :=
+  { nodes := [⟨1, 0, 1, some 1, []⟩, ⟨2, 2, 1, some 1, []⟩], edges := [⟨(1, 2), []⟩],
+    t2n := [(1, [1]), (5, [2])], l2n := [(1, [1, 2])], maxTid := 5, maxLin := 1, counter := 3 }
+/-- forest, `BookOK`, but the non-division edge 1→2 changes the track id (not `TidOK`) -/
+def B2 : St :=
+  { nodes := [⟨1, 0, 1, some 1, []⟩, ⟨2, 2, 5, some 1, []⟩], edges := [⟨(1, 2), []⟩],
+    t2n := [(1, [1]), (5, [2])], l2n := [(1, [1, 2])], maxTid := 5, maxLin := 1, counter := 3 }
+def argsB : AddNodeArgs :=
+  { node := 9, time := some 1, tid := some 5, lin := none, other := [], pixels := none, force := false }
+/-- chain 1→2→3 and 4→5; the lookup lists 5 (not 3) under track 1 (not `BookOK`) -/
+def D1 : St :=
+  { nodes := [⟨1, 0, 1, some 1, []⟩, ⟨2, 1, 1, some 1, []⟩, ⟨3, 2, 1, some 1, []⟩,
+              ⟨4, 0, 2, some 2, []⟩, ⟨5, 2, 2, some 2, []⟩],
+    edges := [⟨(1, 2), []⟩, ⟨(2, 3), []⟩, ⟨(4, 5), []⟩],
+    t2n := [(1, [1, 2, 5]), (2, [4])], l2n := [(1, [1, 2, 3]), (2, [4, 5])],
+    maxTid := 2, maxLin := 2, counter := 6 }
+/-- same graph, lookup consistent with the stored ids, but ids violate T1 (not `TidOK`) -/
+def D2 : St :=
+  { nodes := [⟨1, 0, 1, some 1, []⟩, ⟨2, 1, 1, some 1, []⟩, ⟨3, 2, 7, some 1, []⟩,
+              ⟨4, 0, 2, some 2, []⟩, ⟨5, 2, 1, some 2, []⟩],
+    edges := [⟨(1, 2), []⟩, ⟨(2, 3), []⟩, ⟨(4, 5), []⟩],
+    t2n := [(1, [1, 2, 5]), (7, [3]), (2, [4])], l2n := [(1, [1, 2, 3]), (2, [4, 5])],
+    maxTid := 7, maxLin := 2, counter := 6 }
+/-- chain 1→2→3, one track -/
+def S1 : St :=
+  { nodes := [⟨1, 0, 1, some 1, []⟩, ⟨2, 1, 1, some 1, []⟩, ⟨3, 2, 1, some 1, []⟩],
+    edges := [⟨(1, 2), []⟩, ⟨(2, 3), []⟩],
+    t2n := [(1, [1, 2, 3])], l2n := [(1, [1, 2, 3])], maxTid := 1, maxLin := 1, counter := 4 }
+end C03Ex
+
+/-- `Forest ∧ TidOK` without `BookOK`: an accepted `UserAddNode` creates a merge -/
+theorem C03_hyp_needed_addNode_book :
+    Forest B1 ∧ TidOK B1 ∧ (∃ r, (B1.uAddNode argsB).2 = .ok r) ∧ ¬ Forest (B1.uAddNode argsB).1 :=
+  ⟨by decide, tidB_sound (by decide), ⟨_, rfl⟩, by decide⟩
+#print axioms C03_hyp_needed_addNode_book
+
+/-- `Forest ∧ BookOK` without `TidOK`: an accepted `UserAddNode` creates a merge -/
+theorem C03_hyp_needed_addNode_tid :
+    Forest B2 ∧ BookOK B2 ∧ (∃ r, (B2.uAddNode argsB).2 = .ok r) ∧ ¬ Forest (B2.uAddNode argsB).1 :=
+  ⟨by decide, bookB_sound (by decide), ⟨_, rfl⟩, by decide⟩
+#print axioms C03_hyp_needed_addNode_tid
+
+/-- `UserAddNode` (forced or not) keeps the forest of a state with consistent lookup and ids -/
+theorem C03_step_addNode (s : St) (a : AddNodeArgs) (recs : List PrimRec)
+    (hf : Forest s) (ht : TidOK s) (hb : BookOK s)
+    (h : (s.uAddNode a).2 = .ok recs) : Forest (s.uAddNode a).1 :=
+  uAddNode_forest_of hf (fun time tid0 _ _ => nbrAddOK_of_book hf ht hb tid0 time) h
+
+example : Forest S0 ∧ TidOK S0 ∧ BookOK S0 ∧
+    -- appended to track 4, inserted into track 1 between 1 and 2, forced below the division
+    (∃ r, (S0.uAddNode ⟨9, some 2, some 4, none, [], none, false⟩).2 = .ok r) ∧
+    (∃ r, (S1.uAddNode ⟨9, some 1, some 7, none, [], none, false⟩).2 = .ok r) ∧
+    (∃ r, (S0.uAddNode ⟨9, some 1, some 2, none, [], none, true⟩).2 = .ok r) ∧
+    (S0.uAddNode ⟨9, some 1, some 2, none, [], none, true⟩).1.edgeList =
+      [(1, 2), (2, 4), (5, 6), (9, 3)] :=
+  ⟨by decide, tidB_sound (by decide), bookB_sound (by decide), ⟨_, rfl⟩, ⟨_, rfl⟩, ⟨_, rfl⟩, by decide⟩
+#print axioms C03_step_addNode
+
+/-- `Forest ∧ TidOK` without `BookOK`: an accepted `UserDeleteNode` creates a merge -/
+theorem C03_hyp_needed_deleteNode_book :
+    Forest D1 ∧ TidOK D1 ∧ (∃ r, (D1.uDeleteNode 2 none).2 = .ok r) ∧
+    ¬ Forest (D1.uDeleteNode 2 none).1 :=
+  ⟨by decide, tidB_sound (by decide), ⟨_, rfl⟩, by decide⟩
+#print axioms C03_hyp_needed_deleteNode_book
+
+/-- `Forest ∧ BookOK` without `TidOK`: an accepted `UserDeleteNode` creates a merge -/
+theorem C03_hyp_needed_deleteNode_tid :
+    Forest D2 ∧ BookOK D2 ∧ (∃ r, (D2.uDeleteNode 2 none).2 = .ok r) ∧
+    ¬ Forest (D2.uDeleteNode 2 none).1 :=
+  ⟨by decide, bookB_sound (by decide), ⟨_, rfl⟩, by decide⟩
+#print axioms C03_hyp_needed_deleteNode_tid
+
+/-
+  Full statement (not proved here):
+    theorem C03_step_deleteNode (s n pixels recs) :
+      Forest s → TidOK s → BookOK s → (s.uDeleteNode n pixels).2 = .ok recs →
+      Forest (s.uDeleteNode n pixels).1
+  Proved: the same with `TidOK s ∧ BookOK s` replaced by the decidable condition `DelNbrOK s n`
+  ("in the state `delNodeMid s n` — all edges at `n` removed, sibling relabelled — the pair
+  (pred, succ) returned by get_track_neighbors has indeg succ = 0 and outdeg pred ≤ 1").
+  Missing: `Forest s → TidOK s → BookOK s → DelNbrOK s n`.  That needs (i) the entry
+  `t2n[tid n]` and `tidOf n` are unchanged by the sibling relabel (walk only touches the entries
+  of the sibling's old id and of the parent's id, both ≠ tid n by T2) and (ii) the nodes of one
+  track id form a chain of non-division edges (C04 `tid_iff_sameSeg` + linearity), so that the
+  earliest later node of the track is the child of `n` and the latest earlier one its parent.
+  `trackNeighbors_spec` (sort + scan = max below / min above) is already in ForestLemmas.
+-/
+theorem C03_step_deleteNode_partial (s : St) (n : Node) (pixels : Option (List Pix))
+    (recs : List PrimRec) (hf : Forest s) (hN : DelNbrOK s n)
+    (h : (s.uDeleteNode n pixels).2 = .ok recs) : Forest (s.uDeleteNode n pixels).1 :=
+  uDeleteNode_forest_of hf hN h
+
+example : Forest S0 ∧ DelNbrOK S0 2 ∧ (∃ r, (S0.uDeleteNode 2 none).2 = .ok r) ∧
+    Forest S1 ∧ DelNbrOK S1 2 ∧ (∃ r, (S1.uDeleteNode 2 none).2 = .ok r) ∧
+    (S1.uDeleteNode 2 none).1.edgeList = [(1, 3)] :=
+  ⟨by decide, by decide, ⟨_, rfl⟩, by decide, by decide, ⟨_, rfl⟩, by decide⟩
+#print axioms C03_step_deleteNode_partial
+
+/-
+  Full statement (not proved here):
+    theorem C03_step_updateSeg (s v groups tid force recs) :
+      Forest s → TidOK s → BookOK s → (s.uUpdateSeg v groups tid force).1.2 = .ok recs →
+      Forest (s.uUpdateSeg v groups tid force).1.1
+  Proved: the composition argument for an arbitrary invariant `I ⊆ Forest`.  Instantiating
+  `I := Forest ∧ TidOK ∧ BookOK` needs C03_step_deleteNode (above) and the preservation of
+  `TidOK`/`BookOK` by accepted `uDeleteNode` and by `pUpdSeg` (packages C04/C06);
+  `hAdd` is then `C03_step_addNode`.
+-/
+theorem C03_step_updateSeg_partial (I : St → Prop)
+    (hIF : ∀ st, I st → Forest st)
+    (hDel : ∀ st n px r, I st → (st.uDeleteNode n px).2 = .ok r → I (st.uDeleteNode n px).1)
+    (hSeg : ∀ st st' n px b r, I st → st.pUpdSeg n px b = .ok (st', r) → I st')
+    (hAdd : ∀ st a r, I st → (st.uAddNode a).2 = .ok r → Forest (st.uAddNode a).1)
+    (s : St) (newValue : Nat) (groups : List (List Pix × Nat)) (curTid : Nat) (force : Bool)
+    (recs : List PrimRec) (hI : I s)
+    (h : (s.uUpdateSeg newValue groups curTid force).1.2 = .ok recs) :
+    Forest (s.uUpdateSeg newValue groups curTid force).1.1 :=
+  uUpdateSeg_forest_of I hIF hDel hSeg hAdd hI h
+
+namespace C03Ex
+/-- an invariant that meets the hypotheses: nothing tracked yet (empty canvas) -/
+def EmptyI (st : St) : Prop := Forest st ∧ st.nodes = [] ∧ st.t2n = []
+
+theorem emptyI_del : ∀ st n px r, EmptyI st → (st.uDeleteNode n px).2 = .ok r →
+    EmptyI (st.uDeleteNode n px).1 := by
+  intro st n px r hI h
+  have : st.hasNode n = false := by simp [hasNode, findNode, hI.2.1]
+  simp [uDeleteNode, this] at h
+
+theorem emptyI_seg : ∀ st st' n px b r, EmptyI st → st.pUpdSeg n px b = .ok (st', r) →
+    EmptyI st' := by
+  intro st st' n px b r hI h
+  have : st.hasNode n = false := by simp [hasNode, findNode, hI.2.1]
+  unfold pUpdSeg at h
+  split at h
+  · cases h
+  · simp [this] at h
+
+theorem emptyI_add : ∀ st a r, EmptyI st → (st.uAddNode a).2 = .ok r →
+    Forest (st.uAddNode a).1 := by
+  intro st a r hI h
+  refine uAddNode_forest_of hI.1 ?_ h
+  intro time tid0 _ _
+  have hq : ∀ tid, st.trackNeighbors tid time = (st, none, none) := by
+    intro tid; simp [trackNeighbors, hI.2.2, alook]
+  refine ⟨?_, ?_⟩
+  · intro p hp; rw [hq] at hp; cases hp
+  · intro _ sc hs; rw [hq] at hs; cases hs
+
+/-- two frames of four pixels, label 1 just painted on pixels 1,2 of frame 0 -/
+def E0 : St := { seg := some ⟨4, [0, 1, 1, 0, 0, 0, 0, 0]⟩ }
+end C03Ex
+
+example : EmptyI E0 ∧ (∃ r, (E0.uUpdateSeg 1 [([1, 2], 0)] 1 false).1.2 = .ok r) ∧
+    Forest (E0.uUpdateSeg 1 [([1, 2], 0)] 1 false).1.1 :=
+  ⟨⟨by decide, rfl, rfl⟩, ⟨_, rfl⟩,
+   C03_step_updateSeg_partial EmptyI (fun _ h => h.1) emptyI_del emptyI_seg emptyI_add
+     E0 1 [([1, 2], 0)] 1 false _ ⟨by decide, rfl, rfl⟩ rfl⟩
+#print axioms C03_step_updateSeg_partial
+
+/-! ### session level -/
+
+/-- `St.step`: every operation except paint / undo / redo / enable that does not answer with an
+    error leaves a forest (top-level edits only add a history entry and a refresh on top of the
+    user action; disable and the queries do not touch nodes or edges).  `delNode` under the
+    condition of `C03_step_deleteNode_partial`. -/
+theorem C03_step_session (s : St) (op : Op) (hf : Forest s) (ht : TidOK s) (hb : BookOK s)
+    (hd : ∀ n, op = .delNode n → DelNbrOK s n) (hop : c03Covered op = true)
+    (hne : ∀ e, (s.step op).2 ≠ .err e) : Forest (s.step op).1 :=
+  step_forest hf ht hb hd hop hne
+
+example : Forest S0 ∧ TidOK S0 ∧ BookOK S0 ∧ (S0.step (.addEdge (6, 4) true)).2 = .ok ∧
+    (S0.step (.swap 3 7)).2 = .ok ∧ DelNbrOK S0 2 ∧ (S0.step (.delNode 2)).2 = .ok :=
+  ⟨by decide, tidB_sound (by decide), bookB_sound (by decide), by decide, by decide, by decide,
+   by decide⟩
+#print axioms C03_step_session
+
+/-! ### forced add-edge refused for a third child: rolled back -/
+
+namespace C03Ex
+/-- `S0` with a further node 8 below 6 -/
+def S2 : St :=
+  { nodes := [⟨1, 0, 1, some 1, []⟩, ⟨2, 1, 1, some 1, []⟩, ⟨3, 2, 2, some 1, []⟩, ⟨4, 2, 3, some 1, []⟩,
+              ⟨5, 0, 4, some 2, []⟩, ⟨6, 1, 4, some 2, []⟩, ⟨8, 2, 4, some 2, []⟩],
+    edges := [⟨(1, 2), []⟩, ⟨(2, 3), []⟩, ⟨(2, 4), []⟩, ⟨(5, 6), []⟩, ⟨(6, 8), []⟩],
+    t2n := [(1, [1, 2]), (2, [3]), (3, [4]), (4, [5, 6, 8])],
+    l2n := [(1, [1, 2, 3, 4]), (2, [5, 6, 8])],
+    maxTid := 4, maxLin := 2, counter := 9 }
+end C03Ex
+
+/-- forced add-edge onto a target with parent `p ≠ u` while `u` already has two children: the
+    in-edge `(p,t)` is removed by the nested UserDeleteEdge, the out-degree test fails, the group
+    is rolled back; the call answers `invalid` and nodes, times and the edge set are as before
+    (edge order and track/lineage ids after the rollback are C11's concern).  The hypothesis `hd`
+    (the nested delete-edge itself is accepted) holds in every forest with existing track ids; it
+    is kept explicit because that fact is not proved here. -/
+
+theorem C03_refuse_triple_forced (s : St) (u t p : Node) (tu tt : Nat) (recs0 : List PrimRec)
+    (hf : Forest s) (hu : s.timeOf u = some tu) (ht : s.timeOf t = some tt) (hlt : tu < tt)
+    (hp : (p, t) ∈ s.edgeList) (hpu : p ≠ u) (hout : s.outdeg u ≥ 2)
+    (hd : (s.uDeleteEdge (p, t)).2 = .ok recs0) :
+    (s.uAddEdge (u, t) true).2 = .error .invalid ∧
+    (s.uAddEdge (u, t) true).1.ids = s.ids ∧
+    (∀ n, (s.uAddEdge (u, t) true).1.timeOf n = s.timeOf n) ∧
+    (∀ e, e ∈ (s.uAddEdge (u, t) true).1.edgeList ↔ e ∈ s.edgeList) := by
+  have nu : s.hasNode u = true := by
+    unfold timeOf at hu; unfold hasNode; cases hq : s.findNode u <;> simp [hq] at hu ⊢
+  have nt_ : s.hasNode t = true := by
+    unfold timeOf at ht; unfold hasNode; cases hq : s.findNode t <;> simp [hq] at ht ⊢
+  have hin : s.indeg t > 0 := by
+    rw [indeg_eq]; exact List.length_pos_of_mem (List.mem_filter.mpr ⟨hp, by simp⟩)
+  -- the in-edge that is removed is `(p, t)`
+  have hpre : addEdgePre s (u, t) true = ((s.uDeleteEdge (p, t)).1, .ok recs0) := by
+    unfold addEdgePre
+    simp only [hin, if_true, Bool.not_true, Bool.false_eq_true, if_false]
+    rcases hh : (s.preds t).head? with _ | p'
+    · have := head?_none_indeg hh; omega
+    · have hm := head?_preds_mem hh
+      have : (p', t) = (p, t) := eq_of_length_le_one (by rw [← indeg_eq]; exact hf.indeg_le t)
+        (List.mem_filter.mpr ⟨hm, by simp⟩) (List.mem_filter.mpr ⟨hp, by simp⟩)
+      cases this
+      simp [thenUser, hd]
+  have hG := uDeleteEdge_G' s (p, t)
+  have hout' : (s.uDeleteEdge (p, t)).1.outdeg u = s.outdeg u := by
+    rw [outdeg_eq, outdeg_eq, G_es' hG, List.filter_filter]
+    congr 1
+    apply List.filter_congr
+    intro x _
+    by_cases hx : x.1 = u
+    · have : x ≠ (p, t) := fun h => hpu (by rw [← hx, h])
+      simp [hx, this]
+    · simp [hx]
+  have hres : s.uAddEdge (u, t) true =
+      ((s.uDeleteEdge (p, t)).1.rollback recs0, .error .invalid) := by
+    rw [uAddEdge_eq]
+    simp only [nu, nt_, hu, ht, Option.getD_some, Bool.not_true, Bool.false_eq_true, if_false]
+    rw [if_neg (by omega), hpre]
+    simp only [addEdgeTail]
+    have h0 : ((s.uDeleteEdge (p, t)).1.outdeg u == 0) = false := by rw [hout']; simp; omega
+    have h1 : ((s.uDeleteEdge (p, t)).1.outdeg u == 1) = false := by rw [hout']; simp; omega
+    simp only [h0, h1, Bool.false_eq_true, if_false]
+    rfl
+  have hR := rollback_uDeleteEdge (e := (p, t)) (hf.src_mem _ hp) (hf.dst_mem _ hp) hd
+  rw [hres]
+  refine ⟨rfl, ?_, ?_, ?_⟩
+  · show ((s.uDeleteEdge (p, t)).1.rollback recs0).ids = s.ids
+    rw [ids_eq_nt, ids_eq_nt, G_nt' hR]
+  · intro n
+    show ((s.uDeleteEdge (p, t)).1.rollback recs0).timeOf n = s.timeOf n
+    rw [timeOf_eq_nt, timeOf_eq_nt, G_nt' hR]
+  · intro e
+    show e ∈ ((s.uDeleteEdge (p, t)).1.rollback recs0).edgeList ↔ e ∈ s.edgeList
+    rw [G_es' hR]
+    simp only [List.mem_append, List.mem_filter, List.mem_singleton]
+    constructor
+    · rintro (h | h)
+      · exact h.1
+      · rw [h]; exact hp
+    · intro h
+      by_cases c : e = (p, t)
+      · right; exact c
+      · left; exact ⟨h, by simpa using c⟩
+
+example : Forest S2 ∧ S2.timeOf 2 = some 1 ∧ S2.timeOf 8 = some 2 ∧ (6, 8) ∈ S2.edgeList ∧
+    S2.outdeg 2 ≥ 2 ∧ (∃ r, (S2.uDeleteEdge (6, 8)).2 = .ok r) ∧
+    (S2.uAddEdge (2, 8) true).1.edgeList = [(1, 2), (2, 3), (2, 4), (5, 6), (6, 8)] :=
+  ⟨by decide, by decide, by decide, by decide, by decide, ⟨_, rfl⟩, by decide⟩
+#print axioms C03_refuse_triple_forced
